@@ -317,6 +317,68 @@ def ref_url_risky(f):
     return risky_url, risky_host
 
 
+def ref_predict(f):
+    """what the recorded findings say happens to THIS input, computed with the harness' reference only (RefLib):
+    the request/response bodies the text path yields, whether set_text has to rewrite Content-Type, which error
+    url.parse is expected to raise.  known() excuses a failure only if the observation equals this prediction."""
+    rl = RefLib()
+    rq, rs = f.request, f.response
+    rh, sh = list(rq.headers.fields), list(rs.headers.fields)
+    m = rq.method
+    # request: postData.text -> set_text
+    rc = rl.get_content(rh, rq.raw_content)
+    post = rl.get_text(rh, rq.raw_content) if m in BODY_METHODS else ""
+    b = rl.cs_enc(ref_infer(rl.hget(rh, b"content-type") or "", b""), post)
+    ct_rewrite = b is None
+    if b is None:
+        try: b = post.encode("utf-8", "surrogateescape")
+        except UnicodeEncodeError: b = None
+    # response: content.text / base64
+    sc = rl.get_content(sh, rs.raw_content)
+    if sc and strutils.is_mostly_bin(sc):
+        sb = sc
+    else:
+        t = rl.get_text(sh, rs.raw_content)
+        sb = rl.cs_enc(ref_infer(rl.hget(sh, b"content-type") or "", b""), t)
+        if sb is None:
+            try: sb = t.encode("utf-8", "surrogateescape")
+            except UnicodeEncodeError: sb = None
+    # URL
+    u = rq.pretty_url
+    eurl = f"https://{u}/" if m == "CONNECT" else u
+    hosts = [v for n, v in rh if n.lower() == b"host"]
+    if not eurl.isascii(): urlfail = "UnicodeEncodeError"
+    elif len(hosts) > 1 and m != "CONNECT" and not (rq.is_http2 or rq.is_http3) or " " in eurl: urlfail = "ValueError"
+    else: urlfail = None
+    ru, rhost = ref_url_risky(f)
+    return {"pred_rbody": None if b is None else hx(b), "ct_rewrite": ct_rewrite, "pred_sbody": None if sb is None else hx(sb),
+            "urlfail": urlfail, "risky_url": ru, "risky_host": rhost, "connect": m == "CONNECT", "eurl": eurl}
+
+
+def url_norm(u):
+    """URL up to what F-C41c records: host case, IDNA spelling of the host, empty path vs '/'"""
+    import urllib.parse
+    try:
+        p = urllib.parse.urlsplit(u)
+        host = p.hostname or ""
+        try: host = host.encode("idna").decode()
+        except UnicodeError: pass
+        return (p.scheme, host.lower(), p.port, p.path or "/", p.query, p.fragment)
+    except ValueError:
+        return ("?", u)
+
+
+def py_hset(h, name, v):
+    """MultiDict.set_all(name, [v]) on (lower-name, value) pairs"""
+    out, done = [], False
+    for k, x in h:
+        if k == name:
+            if not done: out.append([k, v]); done = True
+        else: out.append([k, x])
+    if not done: out.append([name, v])
+    return out
+
+
 def guard_bits(f, lt=None):
     """the guard conjuncts of Model/C41_Spec.lean (guardBits), evaluated with the real library functions:
     which of the recorded defect classes F-C41a..h this flow is in (False = in the class)"""
@@ -467,9 +529,11 @@ class Check(PropertyCheck):
         for f, g in zip(flows, guards):
             r = guard_bits(f, RefLib())
             ru, rh_ = ref_url_risky(f)
-            refs.append({"ver": g["ver"], "method": g["method"], "urlparse": g["urlparse"] or not ru, "url": g["url"] or not ru,
-                         "host": g["host"] or not rh_, "req_ce": g["req_ce"], "resp_ce": g["resp_ce"], "noce": g["noce"],
-                         "reqtext": r["reqtext"], "respcl": g["respcl"], "resptext": r["resptext"]})
+            d = {"ver": g["ver"], "method": g["method"], "urlparse": g["urlparse"] or not ru, "url": g["url"] or not ru,
+                 "host": g["host"] or not rh_, "req_ce": g["req_ce"], "resp_ce": g["resp_ce"], "noce": g["noce"],
+                 "reqtext": r["reqtext"], "respcl": g["respcl"], "resptext": r["resptext"]}
+            d.update(ref_predict(f))
+            refs.append(d)
         try:
             har = SaveHar().make_har(flows)
             data = json.dumps(har, indent=4).encode()
@@ -725,22 +789,71 @@ class Check(PropertyCheck):
         return out
 
     def known(self, case, obs, failure):
-        """a failure is an instance of a recorded finding iff the flow it is about fails the guard conjunct of that
-        finding (Model/C41_Spec.lean) and the failing field is one that class can affect.  The conjuncts used here
-        (obs["refs"]) are properties of the INPUT: charset questions are answered by the harness' reference
-        (ref_infer + CPython codecs), URL/Host classes additionally need the input property ref_url_risky; the bits
-        computed from the code's own library answers (obs["guards"]) are only compared with the Lean guard by the
-        tie.  A flow passing the whole guard can never be excused."""
+        """A failure is an instance of a recorded finding iff the observed deviation of that field EQUALS what the
+        finding says happens to this input, predicted by the harness' own reference (ref_predict: ref_infer + CPython
+        codecs, input properties for the URL/Host classes) - never "some failure on an input that looks like the
+        class".  The bits computed from the code's own library answers (obs["guards"]) are only compared with the
+        Lean guard by the tie."""
         tag = failure.split(":", 1)[0]
         if tag.startswith("import-failed"):
-            return "F-C41c" if any(not g["urlparse"] for g in obs["refs"]) else None
-        if "[" not in tag: return None
-        field, idx = tag[:-1].split("[")
-        g = dict(obs["refs"][int(idx)])
-        g["req_noce"], g["resp_noce"] = not g["req_ce"], not g["resp_ce"]
-        for fid, bit, tags in FINDINGS:
-            if field in tags and not g[bit]:
-                return fid
+            # F-C41c: url.parse raises on the exported URL of some flow, with the predicted exception
+            return "F-C41c" if any(r["urlfail"] is not None and r["urlfail"] == obs.get("err") for r in obs["refs"]) else None
+        if "[" not in tag or obs["stage"] != "ok": return None
+        field, idx = tag[:-1].split("["); i = int(idx)
+        x, y, r = obs["orig"][i], obs["back"][i], obs["refs"][i]
+        body_ok = y["sbody"] == x["sbody"] or (y["sbody"] is not None and y["sbody"] == r["pred_sbody"])
+        if field == "version":
+            # F-C41a: exactly "HTTP/2.0" -> "HTTP/1.1"
+            return "F-C41a" if (x["ver"], y["ver"]) == ("HTTP/2.0", "HTTP/1.1") else None
+        if field == "url":
+            if r["connect"]:                                 # F-C41b: CONNECT, imported URL is empty
+                return "F-C41b" if y["url"] == "-" else None
+            if r["risky_url"] and url_norm(unhx(x["url"]).decode("utf-8", "surrogateescape")) == url_norm(unhx(y["url"]).decode("utf-8", "surrogateescape")):
+                return "F-C41c"                              # same URL up to host case / IDNA spelling / empty path
+            return None
+        if field == "request-headers":
+            exp, used = no_cl(x["rh"]), []
+            got = no_cl(y["rh"])
+            hosts = [v for k, v in exp if k == b"host"]
+            if hosts and r["risky_host"]:
+                import urllib.parse
+                u = unhx(y["url"]).decode("utf-8", "surrogateescape") if not r["connect"] else r["eurl"]
+                try:
+                    sp = urllib.parse.urlsplit(u)
+                    nl = sp.netloc
+                    if r["connect"] and nl.endswith(":443"): nl = nl[:-4]
+                    hp = nl.lower().encode("utf-8", "surrogateescape")
+                except ValueError:
+                    hp = None
+                got_hosts = [v for k, v in got if k == b"host"]
+                if hp is not None and got_hosts in ([hp], [unhx(y["url"])] if False else [hp]):
+                    e2 = py_hset(exp, b"host", hp)
+                    if e2 != exp: exp = e2; used.append("F-C41d")
+            if any(k == b"content-encoding" for k, _ in exp) and not any(k == b"content-encoding" for k, _ in got):
+                exp = [[k, v] for k, v in exp if k != b"content-encoding"]; used.append("F-C41e")
+            if r["ct_rewrite"]:
+                cts = [v for k, v in got if k == b"content-type"]
+                if len(cts) == 1 and cts[0].lower().endswith(b"charset=utf-8"):
+                    e2 = py_hset(exp, b"content-type", cts[0])
+                    if e2 != exp: exp = e2; used.append("F-C41f")
+            return used[0] if used and exp == got else None
+        if field == "request-body":
+            # F-C41f: the imported body is the reference's re-encoding of postData.text
+            return "F-C41f" if y["rbody"] is not None and y["rbody"] == r["pred_rbody"] and y["rbody"] != x["rbody"] else None
+        if field == "response-headers":
+            if not body_ok: return None
+            exp, got = names_lower(x["sh"]), names_lower(y["sh"])
+            ce_removed = any(k == b"content-encoding" for k, _ in exp) and not any(k == b"content-encoding" for k, _ in got)
+            if ce_removed: exp = [[k, v] for k, v in exp if k != b"content-encoding"]
+            raw = unhx(y["sraw"]) if y["sraw"] is not None else b""
+            if (raw or ce_removed) and not any(k == b"transfer-encoding" for k, _ in exp):
+                exp = py_hset(exp, b"content-length", str(len(raw)).encode())
+            if exp != got: return None
+            if ce_removed: return "F-C41e"
+            return "F-C41h" if y["sbody"] != x["sbody"] else "F-C41g"
+        if field == "response-body":
+            # F-C41h: the imported decoded body is the reference's re-encoding of content.text
+            return "F-C41h" if y["sbody"] is not None and y["sbody"] == r["pred_sbody"] and y["sbody"] != x["sbody"] else None
         return None
 
     def shrink_candidates(self, case):
